@@ -54,6 +54,8 @@ def key_of(ops, step, why=""):
             elif w.startswith(b"-") and len(w) == 2:
                 shape.add("short")
         return "Arguments.read:" + ("+".join(sorted(shape)) or "plain")
+    if t[0] == "spawn2":
+        return "Process.twoChildren"
     if t[0] == "cmd":
         b = bytes.fromhex(t[2][1:])
         return "Process.commandLine:" + ("backslashInQuotes" if _bs_in_quotes(b) else "quoted" if b'"' in b else "plain")
@@ -257,6 +259,9 @@ def spawn_execs(ctx):
         rest = [e for e in ex if e not in big]
         ctx.rng.shuffle(big)
         ex = rest + big[:40]
+    # two Process objects alive at the same time (descriptor numbers freed by one are taken by the other)
+    for code1, nin1, nout1, code2, nout2, nerr2 in [(0, 5, 5, 3, 7, 9), (2, 0, 100, 0, 4096, 1), (1, 4096, 1, 255, 1, 4096), (0, 1, 1, 0, 0, 0)]:
+        ex.append(["spawn2 %d %d %d %d %d %d" % (code1, nin1, nout1, code2, nout2, nerr2)])
     return ex
 
 
